@@ -280,8 +280,6 @@ type evalOut struct {
 
 func one(st *fstate, v fval) []evalOut { return []evalOut{{st: st, vals: []fval{v}}} }
 
-
-
 func isErrorType(t types.Type) bool { return t != nil && types.Identical(t, errType) }
 
 // run interprets a function body from st and returns its exits.
@@ -972,6 +970,23 @@ func (in *fsInterp) evalCond(e ast.Expr, st *fstate, depth int, b *cfg.Block) []
 			outs[i].truth = -outs[i].truth
 		}
 		return outs
+	}
+	// go/cfg keeps a condition whole: short-circuit evaluation is done here
+	if be, ok := e.(*ast.BinaryExpr); ok && (be.Op == token.LAND || be.Op == token.LOR) {
+		var res []condOut
+		for _, l := range in.evalCond(be.X, st, depth, nil) {
+			if l.exit != nil {
+				res = append(res, l)
+				continue
+			}
+			decided := (be.Op == token.LAND && l.truth < 0) || (be.Op == token.LOR && l.truth > 0)
+			if decided {
+				res = append(res, l)
+				continue
+			}
+			res = append(res, in.evalCond(be.Y, l.st, depth, nil)...)
+		}
+		return res
 	}
 	// err != nil / err == nil
 	if be, ok := e.(*ast.BinaryExpr); ok && (be.Op == token.NEQ || be.Op == token.EQL) {
